@@ -13,6 +13,7 @@ CONSTANTS
     MaxTasks = 1
     MaxDepth = 3
     Panics = TRUE
+    Discards = TRUE
     Emit = TRUE
 VIEW cview
 INVARIANTS InnermostWins NoTrace StackOK
